@@ -374,7 +374,7 @@ pub fn gen_c01(cx: &mut Ctx) {
     for e in shared_exprs().into_iter().chain(shaped_exprs()) {
         conv_chain(cx, "C01", &Val::E(e), 2, true);
     }
-    for e in clause_exprs(&mut cx.rng).into_iter().chain(idiom_exprs()) {
+    for e in clause_exprs(&mut cx.rng).into_iter().chain(idiom_exprs()).chain(flat_nodes(&mut cx.rng, 500)) {
         conv_chain(cx, "C01", &Val::E(e), 1, true);
     }
     let pool = pool_names();
@@ -887,6 +887,30 @@ pub fn dead_branch_variants(base: &E) -> Vec<E> {
     ]
 }
 
+/// flat n-ary nodes of 3 to 5 operands, each a literal or a small clause of the dual connective, over
+/// four variables in random order and polarity: operands that share variables in every pattern
+/// (grouping, block skipping and unit propagation shortcuts depend on the *order* of such operands)
+pub fn flat_nodes(rng: &mut Rng, count: usize) -> Vec<E> {
+    let vars = [lit("a"), lit("b"), lit("c"), lit("d")];
+    let mut out = vec![];
+    for _ in 0..count {
+        let is_and = rng.coin();
+        let k = 3 + rng.below(3);
+        let mut ops = vec![];
+        for _ in 0..k {
+            let len = match rng.below(5) { 0 | 1 => 1, 2 | 3 => 2, _ => 3 };
+            let mut ls: Vec<E> = vec![];
+            for _ in 0..len {
+                let v = rng.pick(&vars).clone();
+                ls.push(if rng.below(3) == 0 { not(v) } else { v });
+            }
+            ops.push(if len == 1 { ls.pop().unwrap() } else if is_and { or(ls) } else { and(ls) });
+        }
+        out.push(if is_and { and(ops) } else { or(ops) });
+    }
+    out
+}
+
 /// pairs of clauses over {a, b, c} in every inclusion / prefix / permutation relation, as a DNF and as
 /// a CNF (absorption-like simplifications must respect which clause contains which)
 pub fn clause_pairs() -> Vec<E> {
@@ -915,6 +939,30 @@ pub fn clause_pairs() -> Vec<E> {
         for c2 in &seqs {
             out.push(or(vec![and(c1.clone()), and(c2.clone())]));
             out.push(and(vec![or(c1.clone()), or(c2.clone())]));
+        }
+    }
+    // two-literal clauses over {a, b} in every polarity and order, alone and below another operand
+    {
+        let signed = [lit("a"), not(lit("a")), lit("b"), not(lit("b"))];
+        let mut twos: Vec<Vec<E>> = vec![];
+        for i in 0..4 {
+            for j in 0..4 {
+                if i / 2 != j / 2 {
+                    twos.push(vec![signed[i].clone(), signed[j].clone()]);
+                }
+            }
+        }
+        for c1 in &twos {
+            for c2 in &twos {
+                let cnf = and(vec![or(c1.clone()), or(c2.clone())]);
+                let dnf = or(vec![and(c1.clone()), and(c2.clone())]);
+                out.push(or(vec![lit("x"), cnf.clone()]));
+                out.push(and(vec![lit("x"), dnf.clone()]));
+                out.push(or(vec![cnf.clone(), lit("x")]));
+                out.push(not(dnf.clone()));
+                out.push(cnf);
+                out.push(dnf);
+            }
         }
     }
     // three clauses: the accumulated product meets the next operand
@@ -1245,6 +1293,10 @@ pub fn derived_objects(cx: &mut Ctx) -> Vec<Val> {
 }
 
 pub fn gen_c09(cx: &mut Ctx) {
+    for e in flat_nodes(&mut cx.rng, if cx.thorough { 40000 } else { 4000 }).into_iter().chain(idiom_exprs()).chain(clause_pairs().into_iter().step_by(3)) {
+        cx.emit("C09", "essential", &[Arg::F(Val::E(e.clone()))], true);
+        cx.emit("C09", "essdegree", &[Arg::F(Val::E(e))], true);
+    }
     for d in derived_objects(cx) {
         for op in ["inputs", "essential", "degree", "essdegree"] {
             cx.emit("C09", op, &[Arg::F(d.clone())], true);
@@ -1304,6 +1356,9 @@ pub fn gen_c09(cx: &mut Ctx) {
 }
 
 pub fn gen_c10(cx: &mut Ctx) {
+    for e in flat_nodes(&mut cx.rng, if cx.thorough { 40000 } else { 4000 }).into_iter().chain(idiom_exprs()).chain(clause_pairs().into_iter().step_by(3)) {
+        cx.emit("C10", "enum", &[Arg::F(Val::E(e))], true);
+    }
     for ns in small_name_sets(cx.thorough) {
         for bits in all_functions(ns.len()) {
             if ns.len() >= 4 && cx.rng.below(8) != 0 {
@@ -1410,7 +1465,7 @@ pub fn gen_c11(cx: &mut Ctx) {
     for e in shared_exprs().into_iter().chain(shaped_exprs()) {
         emit_nf(cx, &e);
     }
-    for e in clause_pairs().into_iter().chain(clause_exprs(&mut cx.rng).into_iter().step_by(3)).chain(idiom_exprs()) {
+    for e in clause_pairs().into_iter().chain(clause_exprs(&mut cx.rng).into_iter().step_by(3)).chain(idiom_exprs()).chain(flat_nodes(&mut cx.rng, 500)) {
         emit_nf(cx, &e);
     }
     let ns = names(&["a", "b", "c", "x_10"]);
